@@ -87,13 +87,23 @@ pub fn case(ctx: &Ctx, shard: usize, index: u64, rep: &mut Report) {
     if interrupts > 0 {
         rep.count("sequences_over_an_interrupting_source");
     }
-    let mut rd = H263Reader::from_source(src.with_chunk(chunk).with_interrupts(interrupts));
+    // one read call somewhere in the stream may fail with a transient error; the failed decode call is repeated
+    let stall = if rng.chance(1, 5) { Some((rng.below(all.len() as u64 + 1) as usize, rng.below(3) as u8)) } else { None };
+    if rng.chance(1, 6) {
+        twin.stall = Some((rng.below(1001) as usize, rng.below(3) as u8));
+    }
+    let mut rd = H263Reader::from_source(src.with_chunk(chunk).with_interrupts(interrupts).with_stall(stall));
     rep.count(&format!("source_chunk={}", if chunk == usize::MAX { "unlimited".to_string() } else { chunk.to_string() }));
     let mut start = 0usize;
     let mut decoded = 0;
     for (i, (bytes, nbits, kind)) in pics.iter().enumerate() {
         let ot = twin.decode(bytes);
-        let os = shared.decode_with(&mut rd);
+        let mut os = shared.decode_with(&mut rd);
+        if matches!(&os, Outcome::Err(k) if k.starts_with("Io(")) {
+            // the transient source error surfaced: a failed call changes nothing, so it is simply repeated
+            os = shared.decode_with(&mut rd);
+            rep.count("calls_repeated_after_transient_source_error");
+        }
         if let Outcome::Panic { msg, loc } = &os {
             rep.violation(format!("panic@{}", loc), format!("call {} on the shared reader panicked: {} :: {}", i, msg, describe()), coords());
             return;
@@ -203,6 +213,21 @@ pub fn ladder(ctx: &Ctx, k: usize, rep: &mut Report) {
     let mut rng = Rng::new(ctx.seed ^ 0xC15AD, k as u64);
     let coords = || J::obj().set("property", "C15").set("kind", "ladder").set("tier", ctx.tier_name()).set("seed", ctx.seed).set("stage", ctx.stage.clone()).set("k", k);
     let sizes = [(1040usize, 1024usize), (2064, 1024), (2048, 2064), (65535, 16), (16, 65535), (65521, 3), (4097, 9), (1024, 1024), (512, 512), (2048, 1152)];
+    if k >= 10 + 18 {
+        // extra-information ladder: a picture whose header carries about 2^8, 2^9, ... PEI/PSUPP bytes, then more pictures
+        let j = k - 28;
+        let n = L::PEI_LADDER[j % L::PEI_LADDER.len()];
+        let flavour = if j >= L::PEI_LADDER.len() { Flavour::StdFixed } else { Flavour::Sor((j % 2) as u8) };
+        let (w, h) = if flavour == Flavour::StdFixed { (128, 96) } else { (32, 16) };
+        let c0 = L::cfg_for(&mut rng, flavour, w, h, n);
+        let mut c1 = L::cfg_for(&mut rng, flavour, w, h, 0);
+        c1.tr = c0.tr.wrapping_add(1);
+        let seq = vec![padded(&L::large_intra(&mut rng, &c0), 'I'), padded(&L::large_inter(&mut rng, &c1, false, None), 'P'), padded(&L::large_intra(&mut rng, &c1), 'I')];
+        if compare_sequence(flavour.sorenson(), &seq, &format!("{} picture with {} extra-information bytes, then P and I", flavour.name(), n), rep, &coords) {
+            rep.count("ladder_extra_information_sequences");
+        }
+        return;
+    }
     if k < sizes.len() {
         let (w, h) = sizes[k];
         let flavour = if k == sizes.len() - 1 { Flavour::StdPlus } else { Flavour::Sor((k % 2) as u8) };
@@ -241,7 +266,7 @@ pub fn ladder(ctx: &Ctx, k: usize, rep: &mut Report) {
     }
 }
 
-pub const LADDER_N: usize = 10 + 18;
+pub const LADDER_N: usize = 10 + 18 + 18;
 
 pub fn run(ctx: &Ctx) -> (Report, String) {
     let per_shard = ctx.n(3000, 40000);
@@ -262,11 +287,12 @@ pub fn run(ctx: &Ctx) -> (Report, String) {
         rep.merge(Report::merge_all(lr));
         rep.require("ladder_large_sequences", 9);
         rep.require("ladder_stuffed_sequences", 16);
+        rep.require("ladder_extra_information_sequences", 16);
     }
     if ctx.is_main() {
         let m = ctx.scale_pct;
         rep.require("sequences_completed", if ctx.tier == Tier::Thorough { 2_000_000 } else { 150_000 } * m / 100);
-        for k in ["mode=sorenson", "mode=standard", "end_phase=0", "end_phase=1", "end_phase=2", "end_phase=3", "end_phase=4", "end_phase=5", "end_phase=6", "end_phase=7", "kind=I", "kind=P", "kind=D", "bigram:II", "bigram:IP", "bigram:PI", "bigram:PP", "bigram:DP", "bigram:PD", "sequences_over_an_interrupting_source", "kind=T", "kind=U", "bigram:TP", "bigram:TI", "bigram:UU", "early_end_then_next_picture:standard", "early_end_phase0_then_next_picture:standard"] {
+        for k in ["mode=sorenson", "mode=standard", "end_phase=0", "end_phase=1", "end_phase=2", "end_phase=3", "end_phase=4", "end_phase=5", "end_phase=6", "end_phase=7", "kind=I", "kind=P", "kind=D", "bigram:II", "bigram:IP", "bigram:PI", "bigram:PP", "bigram:DP", "bigram:PD", "sequences_over_an_interrupting_source", "calls_repeated_after_transient_source_error", "kind=T", "kind=U", "bigram:TP", "bigram:TI", "bigram:UU", "early_end_then_next_picture:standard", "early_end_phase0_then_next_picture:standard"] {
             rep.require(k, 100 * m / 100);
         }
     }
